@@ -62,6 +62,7 @@ class Trace:
         self.lib_calls = []      # every call to a function outside the repository (qname, loc)
         self.inlined = set()
         self.static_locals = []
+        self.pruned = False
         self.vec_access = {}           # vecmodel: location of a subscript -> set of 'ok' / 'oob' / 'unknown'
         self.globals_read = {}  # qname -> (const?, loc)
         self.globals_written = {}
@@ -271,6 +272,10 @@ class Evaluator:
             return ('elem', bt, it)
         if k == 'construct':
             ty_ = str(e.get('t', '')).replace('const ', '')
+            if self.vecmodel and ty_.startswith('std::vector<') and not [a for a in e['args'] if a.get('k') != 'defarg']:
+                return ('cvec', ())
+            if ty_.startswith('std::pair<') and len(e['args']) == 2:
+                return ('pair', self.E(e['args'][0], P, fr), self.E(e['args'][1], P, fr))
             if e['args'] and ty_ in self.prog.records and not (len(e['args']) == 1 and e.get('ctor', '') in ('void (const %s &)' % ty_, 'void (%s &&)' % ty_)):
                 r = self.construct_object(e, P, fr)
                 if r is not None:
@@ -422,6 +427,11 @@ class Evaluator:
                 self.trace.writes.setdefault(path, []).append(loc)
                 P.events.append(('write', path, loc))
                 return
+            # field of something reached through an iterator / pointer (it->second = v): keep the store as an event
+            tgt = self.E(t, P, fr)
+            P.events.append(('store', (tgt, v), loc))
+            self.trace.writes.setdefault('*' + fmt(tgt)[:40], []).append(loc)
+            return
         if k == 'param':
             # by-value parameter reassigned, or reference parameter bound to something of the caller
             a = fr['args'][t['i']] if t['i'] < len(fr['args']) else None
@@ -493,6 +503,11 @@ class Evaluator:
             args_e = args_e[1:]
         else:
             obj = e.get('obj')
+        hook2 = getattr(self, 'call_hook', None)
+        if hook2 is not None:
+            r = hook2(self, e, n, obj, args_e, P, fr)
+            if r is not None:
+                return r
         if e.get('opcall') and n == 'operator[]':
             bt_, it_ = self.E(args_e[0], P, fr), self.E(args_e[1], P, fr)
             if self.vecmodel:
@@ -503,6 +518,8 @@ class Evaluator:
             args = tuple(self.E(a, P, fr) for a in args_e)
             if n in MATH:
                 return ('call', n, args)
+            if n == 'make_pair' and len(args) == 2:
+                return ('pair', args[0], args[1])
             if n == 'accumulate' and len(args_e) == 3 and q.startswith('std::'):
                 b_, e_ = strip(args_e[0], casts=True), strip(args_e[1], casts=True)
                 while b_.get('k') == 'construct' and len(b_['args']) == 1:
@@ -559,6 +576,28 @@ class Evaluator:
                     self.assign(args_e[0], args[1] if len(args) > 1 else ('unk', 'assign'), P, fr, loc)
                     return args[0]
                 return ('call', 'op:' + n, args)
+            if obj is not None and n in ('empty', 'size', 'length', 'compare', 'c_str', 'data'):
+                so = self.E(obj, P, fr)
+                if so[0] == 'str':
+                    # std::string holding a known literal
+                    if n == 'empty':
+                        return num(int(so[1] == ''))
+                    if n in ('size', 'length'):
+                        return num(len(so[1]))
+                    if n in ('c_str', 'data'):
+                        return so
+                    if n == 'compare':
+                        a_ = None
+                        if len(args) == 1 and args[0][0] == 'str':
+                            a_, b_ = so[1], args[0][1]
+                        elif len(args) == 3 and args[2][0] == 'str' and self.const_int(args[0]) is not None and self.const_int(args[1]) is not None:
+                            p0, l0 = self.const_int(args[0]), self.const_int(args[1])
+                            if 0 <= p0 <= len(so[1]) and l0 >= 0:
+                                a_, b_ = so[1][p0:p0 + l0], args[2][1]
+                        if a_ is not None:
+                            return num((a_ > b_) - (a_ < b_))
+            if e.get('opcall') and n in ('operator==', 'operator!=') and len(args) == 2 and args[0][0] == 'str' and args[1][0] == 'str':
+                return num(int((args[0][1] == args[1][1]) == (n == 'operator==')))
             if obj is not None:
                 ob = strip(obj, casts=True)
                 if ob.get('k') == 'member':
@@ -622,7 +661,13 @@ class Evaluator:
         if target is None or not self.inline or n in self.opaque or fr['depth'] >= MAX_DEPTH:
             args = tuple(self.E(a, P, fr) for a in args_e)
             self.trace.unknown_calls.append((q, loc))
-            P.events.append(('call', (q, args), loc))
+            objt = None
+            if obj is not None:
+                try:
+                    objt = self.E(obj, P, fr)
+                except Exception:
+                    objt = ('unk', 'object')
+            P.events.append(('call', (q, args, objt, e.get('sig'), bool(e.get('virt'))), loc))
             return ('call', 'repo:' + n, args)
         fn, this_path = target
         args = []
@@ -757,8 +802,8 @@ class Evaluator:
             if n in ('operator++', 'operator--'):
                 d = 1 if n == 'operator++' else -1
                 new = ('viter', it[1], it[2] + d)
-                if ob.get('k') == 'local':
-                    P.locals[(fr['id'], ob['id'])] = new
+                if ob.get('k') in ('local', 'param'):
+                    self.assign(ob, new, P, fr, loc)
                     return it if len(args) > 1 else new      # postfix form carries a dummy int argument
                 return None
             if n in ('operator+', 'operator-', 'operator+=', 'operator-=') and len(args) == 2:
@@ -768,8 +813,8 @@ class Evaluator:
                 if k_ is None:
                     return None
                 new = ('viter', it[1], it[2] + (k_ if '+' in n else -k_))
-                if n.endswith('=') and ob.get('k') == 'local':
-                    P.locals[(fr['id'], ob['id'])] = new
+                if n.endswith('=') and ob.get('k') in ('local', 'param'):
+                    self.assign(ob, new, P, fr, loc)
                 return new
             if n in ('operator==', 'operator!=', 'operator<', 'operator>', 'operator<=', 'operator>=') and len(args) == 2 and args[1][0] == 'viter' and args[1][1] == it[1]:
                 a_, b_ = it[2], args[1][2]
@@ -910,6 +955,17 @@ class Evaluator:
                     this_path = t[1][5:]
                 elif t[0] == 'sym':
                     this_path = t[1]
+                else:
+                    return None
+            elif o.get('k') in ('call', 'global') and not e.get('virt'):
+                # object designated by an accessor (masa_master<S>() returns a reference to a global) or a global itself
+                if o.get('k') == 'call' and not o.get('inrepo'):
+                    return None
+                t = self.E(o, P, fr)
+                if t[0] == 'sym' and t[1].startswith('global:'):
+                    this_path = t[1]
+                elif t[0] == 'sym' and t[1].startswith('this:'):
+                    this_path = t[1][5:]
                 else:
                     return None
             else:
@@ -1196,6 +1252,8 @@ class Evaluator:
         iteration) are unrolled; anything else falls back to the abstract single-iteration summary"""
         if s['k'] == 'do' or s.get('c') is None:
             return None
+        if getattr(self, 'unroll_paths', False):
+            return self.unroll_multi(s, P, fr, limit)
         Q = P.fork()
         saved_events = len(Q.events)
         n = 0
@@ -1224,6 +1282,48 @@ class Evaluator:
                 return None
         self.adopt_into(P, Q)
         return [P]
+
+    def unroll_multi(self, s, P, fr, limit=256, max_paths=2048):
+        """unrolling with branching bodies: the loop condition must be decidable on every path at every iteration; paths
+        that return or exit inside the body leave the loop, the others go round again.  None (-> abstract summary) when the
+        condition is not decidable or the bounds are exceeded."""
+        live = [P.fork()]
+        finished = []
+        n = 0
+        while live:
+            nxt = []
+            for Q in live:
+                c = self.E(s['c'], Q, fr)
+                tv = self.truth(c)
+                if tv is None:
+                    return None
+                if tv is False:
+                    finished.append(Q)
+                    continue
+                for R in self.exec_stmt(s['body'], Q, fr):
+                    if R.kind in ('ret', 'exit'):
+                        finished.append(R)
+                    elif R.kind == 'break':
+                        R.kind = 'fall'
+                        finished.append(R)
+                    else:
+                        R.kind = 'fall'
+                        if s['k'] == 'for' and s.get('inc') is not None:
+                            self.E(s['inc'], R, fr)
+                        nxt.append(R)
+            live = nxt
+            n += 1
+            if len(live) > 48:
+                # too many distinct continuations: keep exploring a subset.  Every explored path is still a real path (what is
+                # reported on it is real); `pruned` tells the caller that absence of findings is not a proof
+                live = live[:48]
+                self.trace.pruned = True
+            if n > limit or len(live) + len(finished) > max_paths:
+                return None
+        if not finished:
+            return None
+        self.adopt_into(P, finished[0])
+        return [P] + finished[1:]
 
     @staticmethod
     def adopt_into(P, Q):
